@@ -494,7 +494,7 @@ def evaluate_supersampled(field_generator, grid, oversampling, statistic='mean',
                     field = np.maximum(field, field_generator(dithered_grid))
 
         if statistic == 'mean':
-            field /= len(dithers)
+            field = field / len(dithers)
 
         field.grid = grid
         return field
